@@ -33,6 +33,7 @@ type stats struct {
 	Selects      int    `json:"selects"`
 	Recvs        int    `json:"recvs"`
 	Uncontrolled int    `json:"uncontrolled_selects"`
+	PkgVarYields int    `json:"pkg_var_yields"`
 }
 
 type rewriter struct {
@@ -43,6 +44,9 @@ type rewriter struct {
 	st         stats
 	tmp        int
 	needRT     bool
+	pkgVars    map[string]bool          // names of package-level variables of this package
+	pkgSpecs   map[*ast.ValueSpec]bool  // their declarations in this file
+	viaPkgVar  bool
 }
 
 const rtName = "zsimrt"
@@ -65,12 +69,37 @@ func main() {
 			fmt.Fprintln(os.Stderr, "instrument:", err)
 			os.Exit(2)
 		}
+		// R7: names of the package-level variables (shared mutable state that is not
+		// behind a recognisable synchronisation call)
+		pkgVars := map[string]bool{}
 		for _, e := range ents {
 			n := e.Name()
 			if e.IsDir() || !strings.HasSuffix(n, ".go") || strings.HasSuffix(n, "_test.go") || strings.HasPrefix(n, "zverif_") {
 				continue
 			}
-			st, err := processFile(filepath.Join(dir, n), filepath.ToSlash(filepath.Join(pkg, n)), *module)
+			f, err := parser.ParseFile(token.NewFileSet(), filepath.Join(dir, n), nil, 0)
+			if err != nil {
+				fmt.Fprintln(os.Stderr, "instrument:", err)
+				os.Exit(2)
+			}
+			for _, d := range f.Decls {
+				if gd, ok := d.(*ast.GenDecl); ok && gd.Tok == token.VAR {
+					for _, sp := range gd.Specs {
+						for _, id := range sp.(*ast.ValueSpec).Names {
+							if id.Name != "_" {
+								pkgVars[id.Name] = true
+							}
+						}
+					}
+				}
+			}
+		}
+		for _, e := range ents {
+			n := e.Name()
+			if e.IsDir() || !strings.HasSuffix(n, ".go") || strings.HasSuffix(n, "_test.go") || strings.HasPrefix(n, "zverif_") {
+				continue
+			}
+			st, err := processFile(filepath.Join(dir, n), filepath.ToSlash(filepath.Join(pkg, n)), *module, pkgVars)
 			if err != nil {
 				fmt.Fprintln(os.Stderr, "instrument:", err)
 				os.Exit(2)
@@ -85,14 +114,21 @@ func main() {
 	}
 }
 
-func processFile(path, rel, module string) (stats, error) {
+func processFile(path, rel, module string, pkgVars map[string]bool) (stats, error) {
 	fset := token.NewFileSet()
 	f, err := parser.ParseFile(fset, path, nil, parser.ParseComments)
 	if err != nil {
 		return stats{}, err
 	}
-	rw := &rewriter{fset: fset, rel: rel}
+	rw := &rewriter{fset: fset, rel: rel, pkgVars: pkgVars, pkgSpecs: map[*ast.ValueSpec]bool{}}
 	rw.st.File = rel
+	for _, d := range f.Decls {
+		if gd, ok := d.(*ast.GenDecl); ok && gd.Tok == token.VAR {
+			for _, sp := range gd.Specs {
+				rw.pkgSpecs[sp.(*ast.ValueSpec)] = true
+			}
+		}
+	}
 	for _, im := range f.Imports {
 		p, _ := strconv.Unquote(im.Path.Value)
 		name := ""
@@ -267,6 +303,29 @@ func (rw *rewriter) hasSyncOp(n ast.Node) bool {
 		switch y := x.(type) {
 		case *ast.FuncLit:
 			return false
+		case *ast.SelectorExpr:
+			// only the operand can be a package variable, never the selected name
+			if rw.hasSyncOp(y.X) {
+				found = true
+			}
+			return false
+		case *ast.KeyValueExpr:
+			if _, bare := y.Key.(*ast.Ident); bare {
+				if rw.hasSyncOp(y.Value) {
+					found = true
+				}
+				return false
+			}
+		case *ast.Ident:
+			if rw.pkgVars[y.Name] {
+				if y.Obj == nil {
+					found = true
+					rw.viaPkgVar = true
+				} else if vs, ok := y.Obj.Decl.(*ast.ValueSpec); ok && rw.pkgSpecs[vs] {
+					found = true
+					rw.viaPkgVar = true
+				}
+			}
 		case *ast.SendStmt:
 			found = true
 		case *ast.UnaryExpr:
